@@ -249,7 +249,20 @@ def run_property(P, tier, seed, scratch, args, t0):
             undecided.append(("%s/%s" % (uname, h["name"]), "vacuous: zero labelled contract assertions"))
             continue
         labelled = [c for c in labelled if c["status"] != "UNREACHABLE"]
+        # A check this harness cannot reach is not an obligation of this harness (a concrete
+        # interned-span harness never reaches the inline-encoding arithmetic).  It is reported
+        # separately, never counted as discharged and never counted as an obligation.
+        ph["safety_checks_unreachable_in_this_harness"] = len([c for c in safety if c["status"] == "UNREACHABLE"])
+        safety = [c for c in safety if c["status"] != "UNREACHABLE"]
+        ph["safety_checks_in_extracted_text"] = len(safety)
         n_ob = len([c for c in labelled if c["status"] == "SUCCESS"]) + len([c for c in safety if c["status"] == "SUCCESS"])
+        # hard guard: a passing harness has every reachable obligation discharged; anything else
+        # (e.g. an UNDETERMINED safety check) is undecided and names the check - never OK.
+        odd = [c for c in labelled + safety if c["status"] != "SUCCESS"]
+        if odd:
+            undecided.append(("%s/%s" % (uname, h["name"]),
+                              "obligation neither discharged nor failed: %s [%s] at %s" % (odd[0]["desc"], odd[0]["status"], odd[0]["loc"])))
+            continue
         if res["strength"] == "proof":
             ob_proof += len(labelled) + len(safety)
             ob_proof_ok += n_ob
